@@ -4,6 +4,7 @@
 // Oracle: 8th-order central differences (three step sizes, the best one counts):
 //   (a) Jacobian functions = partial derivatives of (Fx,Fy);  (b) f = -(1/|det|) d_i(alpha |det| g^ij d_j u) + beta u;
 //   (c) boundary data = exact solution on the boundary;       (d) gyro profiles: alpha*beta = 1, else beta = 0, alpha > 0.
+#include <omp.h>
 #include "engine.h"
 #include "solver_cfg.h"
 
@@ -145,6 +146,84 @@ static Outcome runCase(const KV& c)
                 return o;
             }
         }
+    // (e) the library evaluates these objects from inside its parallel regions (uncached coefficients/geometry, right-hand
+    // side): evaluated concurrently by several threads, each at its own points and each point twice in a row, every
+    // function must return exactly what it returns sequentially ("at every point" has no single-thread exemption)
+    if (const int T = (int)c.getI("concurrent_threads", 0); T >= 2) {
+        o.cls("concurrent_evaluation");
+        const int P = 64, reps = 40;
+        std::vector<double> pr(P), pt(P);
+        for (int k = 0; k < P; k++) {
+            pr[k] = R0 + (Rmax - R0) * rnd.uni();
+            pt[k] = 2 * M_PI * rnd.uni();
+        }
+        auto evalAll = [&](int k, double* out) {
+            const double r = pr[k], t = pt[k], st = std::sin(t), ct = std::cos(t);
+            int q = 0;
+            out[q++] = F.co->alpha(r);
+            out[q++] = F.co->beta(r);
+            out[q++] = F.geo->Fx(r, t, st, ct);
+            out[q++] = F.geo->Fy(r, t, st, ct);
+            out[q++] = F.geo->dFx_dr(r, t, st, ct);
+            out[q++] = F.geo->dFy_dr(r, t, st, ct);
+            out[q++] = F.geo->dFx_dt(r, t, st, ct);
+            out[q++] = F.geo->dFy_dt(r, t, st, ct);
+            out[q++] = F.src->rhs_f(r, t, st, ct);
+            out[q++] = F.bc->u_D(Rmax, t, st, ct);
+            out[q++] = F.bc->u_D_Interior(R0, t, st, ct);
+            out[q++] = F.ex ? F.ex->exact_solution(r, t, st, ct) : 0.0;
+        };
+        const int NV = 12;
+        std::vector<double> seq(P * NV);
+        for (int k = 0; k < P; k++)
+            evalAll(k, &seq[k * NV]);
+        long bad = 0;
+        int badK = -1, badQ = -1;
+        double badV = 0;
+#pragma omp parallel num_threads(T) reduction(+ : bad)
+        {
+            const int me = omp_get_thread_num();
+            double v[NV];
+            // the cheap functions (profiles) are hammered much harder than the long source-term formulas
+            for (int rep = 0; rep < 1500; rep++)
+                for (int k = me; k < P; k += T)
+                    for (int twice = 0; twice < 2; twice++) {
+                        const double a = F.co->alpha(pr[k]), b = F.co->beta(pr[k]);
+                        if (std::memcmp(&a, &seq[k * NV], 8) != 0 || std::memcmp(&b, &seq[k * NV + 1], 8) != 0) {
+                            bad++;
+#pragma omp critical
+                            {
+                                badK = k;
+                                badQ = std::memcmp(&a, &seq[k * NV], 8) != 0 ? 0 : 1;
+                                badV = badQ == 0 ? a : b;
+                            }
+                        }
+                    }
+            for (int rep = 0; rep < reps; rep++)
+                for (int k = me; k < P; k += T)
+                    for (int twice = 0; twice < 2; twice++) {
+                        evalAll(k, v);
+                        for (int q = 0; q < NV; q++)
+                            if (std::memcmp(&v[q], &seq[k * NV + q], 8) != 0) {
+                                bad++;
+#pragma omp critical
+                                {
+                                    badK = k;
+                                    badQ = q;
+                                    badV = v[q];
+                                }
+                            }
+                    }
+        }
+        if (bad > 0) {
+            static const char* names[NV] = {"alpha", "beta", "Fx", "Fy", "dFx_dr", "dFy_dr", "dFx_dt", "dFy_dt", "rhs_f", "u_D", "u_D_Interior", "exact_solution"};
+            char buf[300];
+            snprintf(buf, sizeof buf, "%ld evaluations by %d concurrent threads differ from the sequential value, e.g. %s at r=%.6g theta=%.6g: %.17g vs %.17g", bad, T,
+                     names[badQ], pr[badK], pt[badK], badV, seq[badK * NV + badQ]);
+            o.fail("concurrent_evaluation", buf);
+            return o;
+        }
+    }
     for (int k = 0; k < npoints; k++) {
         // r: uniform, log-uniform towards R0, near Rmax, near the profile's steep region
         double r;
@@ -284,6 +363,7 @@ static KV genCase()
     }
     c.putI("npoints", 24);
     c.putU("point_seed", rseed());
+    c.putI("concurrent_threads", rint(0, 11) == 0 ? rpick({2, 4, 8}) : 0);
     return c;
 }
 
